@@ -1366,7 +1366,9 @@ class Interp(object):
             if isinstance(obj, list) and name in ("index", "count", "remove", "insert", "copy", "reverse", "sort", "extend") or \
                     isinstance(obj, (set, frozenset, dict)) and name in ("copy", "union", "difference", "intersection", "update",
                                                                         "symmetric_difference", "issubset", "issuperset"):
-                self.work += len(obj) + sum(len(a_) for a_ in args if isinstance(a_, (list, tuple, set, frozenset, dict)))
+                if name not in ("extend", "update"):      # those cost the size of the argument only
+                    self.work += len(obj)
+                self.work += sum(len(a_) for a_ in args if isinstance(a_, (list, tuple, set, frozenset, dict)))
             if name in ("items", "keys", "values"):
                 return list(getattr(obj, name)())
             if name == "sort":
